@@ -472,11 +472,14 @@ def check_vp(S, fname, spec, pre, vpi=3, ins=None, name=None, timeout=None, mand
                 S.rec(name=oname, kind=kind, functions=fnlist, bounds=binfo, solver=used + ' (viewport int->float conversions abstracted to real constants)', result='unsat', time_s=round(dt, 3),
                       status='discharged', mandatory=mandatory); return
         # model search first inside a small viewport range: an off-by-one-pixel error must stay above the tolerance of the numeric replay
+        # (stage 2 never runs on a tree whose code touches the viewport only through T(viewport[k]); its total time per job is budgeted so that a defective tree is reported well inside the job cap)
+        spent = getattr(S, '_vp_stage2', 0.0); t2 = time.time(); short = spent > 150
         sg = ct_kind(vc) == 's'; small = [z3.And(x >= -100, x <= 100) if sg else z3.ULE(x, 100) for x in vb]; nv = len(S.violations)
-        r, m = S.prove(oname + '.small-viewport', g_c, hy_c + small, timeout=min(timeout, 30), kind=kind, functions=fnlist, bounds=binfo + '; mixed bit-vector/real query, |viewport components| <= 100',
+        r, m = S.prove(oname + '.small-viewport', g_c, hy_c + small, timeout=3 if short else min(timeout, 12), kind=kind, functions=fnlist, bounds=binfo + '; mixed bit-vector/real query, |viewport components| <= 100',
                        replay=replay, mandatory=False)
-        if r == 'sat' and len(S.violations) > nv: return
-        S.prove(oname, g_c, hy_c, timeout=min(timeout, 40), kind=kind, functions=fnlist, bounds=binfo + '; mixed bit-vector/real query', replay=replay, mandatory=mandatory)
+        if not (r == 'sat' and len(S.violations) > nv):
+            S.prove(oname, g_c, hy_c, timeout=3 if short else min(timeout, 20), kind=kind, functions=fnlist, bounds=binfo + '; mixed bit-vector/real query', replay=replay, mandatory=mandatory)
+        S._vp_stage2 = spent + time.time() - t2
     if side:
         groups = {}
         for kind, cond, d in res.obligations: groups.setdefault((kind, d), []).append(cond)
